@@ -54,10 +54,18 @@ func (c *countMem) Set(a uint16, v uint8) {
 type c12Scratch struct {
 	flat map[uint8]*fastMem
 	dumb map[uint8]z80.DumbMemory
+	live *liveSlot
+}
+
+func (sc *c12Scratch) slot() *liveSlot {
+	if sc == nil {
+		return nil
+	}
+	return sc.live
 }
 
 func newC12Scratch() *c12Scratch {
-	return &c12Scratch{flat: map[uint8]*fastMem{}, dumb: map[uint8]z80.DumbMemory{}}
+	return &c12Scratch{flat: map[uint8]*fastMem{}, dumb: map[uint8]z80.DumbMemory{}, live: newLiveSlot()}
 }
 
 // release restores the fill byte wherever the case stored something.
@@ -88,7 +96,10 @@ type c12Config struct {
 }
 
 var c12MemLens = []int{-1, 0, 1, 256, 32768, -2}
-var c12IOLens = []int{-1, 0, 1, 128, 256}
+// kinds 5..8: 256 ports that answer FFh, 80h, AAh and 7Fh (what a port answers is input like any other: a flag
+// helper with a loop over the value read must end for every value)
+var c12IOLens = []int{-1, 0, 1, 128, 256, 256, 256, 256, 256}
+var c12IOFill = []uint8{0, 0, 0, 0, 0, 0xFF, 0x80, 0xAA, 0x7F}
 var c12IMs = []int{0, 1, 2, -1, 3, math.MaxInt}
 
 func c12Requests() []*z80.Interrupt {
@@ -181,7 +192,13 @@ func c12BuildIO(kind int) z80.IO {
 	if kind == 0 {
 		return nil
 	}
-	return make(z80.DumbIO, c12IOLens[kind])
+	d := make(z80.DumbIO, c12IOLens[kind])
+	if f := c12IOFill[kind]; f != 0 {
+		for i := range d {
+			d[i] = f
+		}
+	}
+	return d
 }
 
 // c12One executes one configuration. Returns a diff or nil.
@@ -204,6 +221,8 @@ func c12One(cfg *c12Config, reqs []*z80.Interrupt, invalid *refz80.Inst, sc *c12
 	var pan interface{}
 	func() {
 		defer func() { pan = recover() }()
+		defer sc.slot().leave()
+		sc.slot().enter(cfg)
 		cpu.Step()
 	}()
 	if pan != nil {
@@ -267,7 +286,7 @@ func c12Run(cfg *c12Config, sc *c12Scratch) []string {
 	func() {
 		defer func() { pan = recover() }()
 		for i := 0; i < budget; i++ {
-			twin.Step()
+			liveStep(twin)
 			if twin.HALT {
 				halted = true
 				return
@@ -427,7 +446,7 @@ func checkC12(c *Ctx) {
 			}
 		}
 	}
-	c.Rule = fmt.Sprintf("every decode path (%d byte prefixes incl. all 65536 (d,op) pairs after DDCB/FDCB) x %d operand byte patterns x %d configurations (memory kind {64K array, DumbMemory len 0/1/256/32768, MapMemory} / IO kind {nil, DumbIO len 0/1/128/256} / IM {0,1,2,-1,3,MaxInt} / PC {0000,0100,FFFC..FFFF} / SP / pending request {none, NMI, unknown types, IM1, IM2, mode-0 data of 1..4 bytes and 70000 bytes} one at a time around a default, thorough: pairs); all 256 single-byte opcodes and multi-byte forms as mode-0 data x IM x IFF1 x PC x memory kind; mode-0 data of 5/8/300 bytes starting with each of the 256 opcodes with every pointer register aimed into and around [PC, PC+len); Run on a halting program with every request kind pending x IM x IFF1; Run vs Step-driven twin on every decode path as a one-instruction program in HALT-filled memory (at 0100, FFC0 and FFFA, with and without a non-empty BreakPoints map). the real DumbMemory (6 lengths) and MapMemory passed to the CPU unwrapped x every decode path x operand patterns x 4 PCs x 7 SPs; memories filled with a single prefix/opcode byte; thorough: 14 soak loops, one CPU value each, every instruction family (CALL/RET, RST, PUSH/POP, jumps, block elements, port I/O, unsupported op-codes, accepted IM1/NMI/mode-0 requests, HALT wake-up, read-modify-write, 16-bit loads) executed 2^31+2^16 times: no panic, stack balanced, control inside the loop; a port device that also implements the exported (unused) INT/NMI interfaces and holds its lines until ReturnNMI/ReturnINT: the program reaches its HALT; Run called from inside a device callback of a running Run on the same CPU (BIOS-trap style, both programs halt); one CPU value stepped through the whole decode tree twice (every supported and unsupported encoding on the same object); an embedder re-pointing CPU.Memory/CPU.IO from inside the callback at access 0..4 of the Step x all 256 first bytes x 4 tails, from memory and as mode-0 data; Oracle: no panic, deterministic watchdog (4096 accesses per Step), unsupported opcodes only consumed. Non-trivial = the configuration deviates from the default in memory/IO/IM/request or the path is an unsupported or prefix-only encoding (counted).", len(paths), len(operandPats), len(cfgs))
+	c.Rule = fmt.Sprintf("every decode path (%d byte prefixes incl. all 65536 (d,op) pairs after DDCB/FDCB) x %d operand byte patterns x %d configurations (memory kind {64K array, DumbMemory len 0/1/256/32768, MapMemory} / IO kind {nil, DumbIO len 0/1/128/256, 256 ports answering FF/80/AA/7F} / IM {0,1,2,-1,3,MaxInt} / PC {0000,0100,FFFC..FFFF} / SP / pending request {none, NMI, unknown types, IM1, IM2, mode-0 data of 1..4 bytes and 70000 bytes} one at a time around a default, thorough: pairs); all 256 single-byte opcodes and multi-byte forms as mode-0 data x IM x IFF1 x PC x memory kind; mode-0 data of 5/8/300 bytes starting with each of the 256 opcodes with every pointer register aimed into and around [PC, PC+len); Run on a halting program with every request kind pending x IM x IFF1; Run vs Step-driven twin on every decode path as a one-instruction program in HALT-filled memory (at 0100, FFC0 and FFFA, with and without a non-empty BreakPoints map). the real DumbMemory (6 lengths) and MapMemory passed to the CPU unwrapped x every decode path x operand patterns x 4 PCs x 7 SPs; memories filled with a single prefix/opcode byte; thorough: 14 soak loops, one CPU value each, every instruction family (CALL/RET, RST, PUSH/POP, jumps, block elements, port I/O, unsupported op-codes, accepted IM1/NMI/mode-0 requests, HALT wake-up, read-modify-write, 16-bit loads) executed 2^31+2^16 times: no panic, stack balanced, control inside the loop; a port device that also implements the exported (unused) INT/NMI interfaces and holds its lines until ReturnNMI/ReturnINT: the program reaches its HALT; Run called from inside a device callback of a running Run on the same CPU (BIOS-trap style, both programs halt); one CPU value stepped through the whole decode tree twice (every supported and unsupported encoding on the same object); an embedder re-pointing CPU.Memory/CPU.IO from inside the callback at access 0..4 of the Step x all 256 first bytes x 4 tails, from memory and as mode-0 data; Oracle: no panic, deterministic watchdog (4096 accesses per Step), unsupported opcodes only consumed. Non-trivial = the configuration deviates from the default in memory/IO/IM/request or the path is an unsupported or prefix-only encoding (counted).", len(paths), len(operandPats), len(cfgs))
 	c.Bound = "decode tree x configuration lattice " + c.Tier
 	var evals, nontriv [16 * 8]int64
 	var capped int32
@@ -526,8 +545,8 @@ func checkC12(c *Ctx) {
 							var pan interface{}
 							func() {
 								defer func() { pan = recover() }()
-								cpu.Step()
-								cpu.Step()
+								liveStep(&cpu)
+								liveStep(&cpu)
 							}()
 							n++
 							sc0.release(cm, mk, 0x00, pc, 1)
@@ -564,8 +583,8 @@ func checkC12(c *Ctx) {
 				var pan interface{}
 				func() {
 					defer func() { pan = recover() }()
-					cpu.Step()
-					cpu.Step()
+					liveStep(&cpu)
+					liveStep(&cpu)
 				}()
 				nl++
 				for _, a := range cm.written {
@@ -689,8 +708,8 @@ func checkC12(c *Ctx) {
 								var pan interface{}
 								func() {
 									defer func() { pan = recover() }()
-									cpu.Step()
-									cpu.Step()
+									liveStep(&cpu)
+									liveStep(&cpu)
 								}()
 								ns++
 								for _, wa := range sw.written {
@@ -760,7 +779,7 @@ func checkC12(c *Ctx) {
 								var pan interface{}
 								func() {
 									defer func() { pan = recover() }()
-									cpu.Step()
+									liveStep(&cpu)
 								}()
 								*n++
 								if pan != nil {
@@ -803,8 +822,8 @@ func checkC12(c *Ctx) {
 						var pan interface{}
 						func() {
 							defer func() { pan = recover() }()
-							cpu.Step()
-							cpu.Step()
+							liveStep(&cpu)
+							liveStep(&cpu)
 						}()
 						n++
 						sc0.release(cm, mk, 0x00, pc, 1)
@@ -1083,8 +1102,10 @@ func c12Soak(c *Ctx) int64 {
 			var pan interface{}
 			var done, nsteps int64
 			lost := false
+			soakLive := newLiveSlot()
 			func() {
 				defer func() { pan = recover() }()
+				defer soakLive.reset()
 				for it := int64(0); it < iters; it++ {
 					// pointers and counters are re-seeded so that the loop never wanders over its own code
 					cpu.HL.SetU16(0x6000)
@@ -1099,6 +1120,8 @@ func c12Soak(c *Ctx) int64 {
 						cpu.Interrupt, cpu.IFF1 = im0, false
 					}
 					k := 0
+					soakLive.reset()
+					soakLive.enter(&cpu) // one publication per iteration: the Steps of an iteration take well under a microsecond together
 					if l.raise == 4 {
 						cpu.Step() // HALT
 						k++
